@@ -216,7 +216,7 @@ def near_misses(raw: dict, rng: random.Random, malformed: bool = True) -> list:
     # global markers
     if 'Conventions' in at:
         out.append(('drop-Conventions', [['del_gattr', 'Conventions']]))
-        for val in ['CF-1.6', 'ugrid-1.0', 'UGRI', 'UGRID', 'CF-1.6, UGRID-1.0', 'xUGRIDx', '']:
+        for val in ['CF-1.6', 'ugrid-1.0', 'UGRI', 'UGRID', 'CF-1.6, UGRID-1.0', 'CF-1.6,UGRID-1.0', 'xUGRIDx', '']:
             if val != at['Conventions']:
                 out.append((f'Conventions={val}', [['set_gattr', 'Conventions', val]]))
         if malformed:
@@ -320,13 +320,58 @@ def near_misses(raw: dict, rng: random.Random, malformed: bool = True) -> list:
 
 
 # --------------------------------------------------------------------------
+# spellings of the `Conventions` global attribute
+#
+# The attribute is a *list* of convention names.  CF separates the names by blanks or by commas (with or
+# without a blank after the comma), some writers use semicolons or line breaks, netCDF-4 files may hold a
+# string array.  Every spelling of the same list declares the same conventions, and a dataset that
+# follows several conventions lists the others too (CF, ACDD, a vendor profile) in any order.
+
+OTHER_CONVENTION_NAMES = ['CF-1.8', 'CF-1.6', 'ACDD-1.3', 'Deltares-0.10', 'COARDS', 'SGRID-0.3']
+NAME_SEPARATORS = [' ', ', ', ',', ';', '  ', '\n', ' , ', '; ']
+LIST_FORMS = ['list', 'list-of-one-string']
+
+
+def split_conventions(value) -> list:
+    """the names a (string or string-list) Conventions value lists"""
+    import re
+    parts = [value] if isinstance(value, str) else [x for x in (value or []) if isinstance(x, str)]
+    return [n for p in parts for n in re.split(r'[\s,;]+', p) if n]
+
+
+def respell_conventions(names: list, rng: random.Random, form: str) -> object:
+    """The same convention names (order kept) with 0-2 unrelated names put in between, written with the
+    separator `form` (one of NAME_SEPARATORS) or as a string list (LIST_FORMS)."""
+    names = list(names)
+    for extra in rng.sample(OTHER_CONVENTION_NAMES, rng.choice([0, 1, 1, 2, 2])):
+        if extra not in names:
+            names.insert(rng.randint(0, len(names)) if rng.random() < 0.5 else 0, extra)
+    if form == 'list':
+        return names
+    if form == 'list-of-one-string':
+        return [rng.choice(NAME_SEPARATORS).join(names)]
+    return form.join(names)
+
+
+def conventions_spellings(value, rng: random.Random) -> list:
+    """(label, new value) - one respelling of `value` per separator / list form"""
+    names = split_conventions(value)
+    out = []
+    for form in NAME_SEPARATORS + LIST_FORMS:
+        new = respell_conventions(names, rng, form)
+        if new != value and new not in ('', []):
+            out.append((f'Conventions-spelling:{form!r}', new))
+    return out
+
+
+# --------------------------------------------------------------------------
 # random raw recipes (fuzz around the predicates, incl. the malformed stream)
 
 def random_raw(rng: random.Random, malformed: bool = False) -> dict:
     def pick(pool, p_absent=0.5):
         return None if rng.random() < p_absent else rng.choice(pool)
     attrs = {}
-    conv_pool = ['CF-1.4', 'UGRID-1.0', 'CF-1.6, UGRID-1.0', 'ugrid', 'UGRI', 'UGRID', '']
+    conv_pool = ['CF-1.4', 'UGRID-1.0', 'CF-1.6, UGRID-1.0', 'CF-1.8,UGRID-1.0', 'ugrid', 'UGRI', 'UGRID', '']
     if malformed:
         conv_pool += [5, ['UGRID'], 2.5]
     c = pick(conv_pool, 0.3)
@@ -379,7 +424,8 @@ def random_raw(rng: random.Random, malformed: bool = False) -> dict:
                 del mv['attrs']['topology_dimension']
             vars_.insert(rng.randint(0, len(vars_)), mv)
         if rng.random() < 0.7:
-            attrs['Conventions'] = rng.choice(['UGRID-1.0', 'CF-1.6, UGRID-1.0', 'UGRID'])
+            attrs['Conventions'] = rng.choice(['UGRID-1.0', 'CF-1.6, UGRID-1.0', 'UGRID', 'CF-1.8,UGRID-1.0',
+                                                'ACDD-1.3;UGRID-1.0', ['CF-1.8', 'UGRID-1.0']])
     return {'attrs': attrs, 'sizes': sizes, 'vars': vars_}
 
 
